@@ -29,10 +29,9 @@ func VisitorPerItem(w *World, rel string) *report.RuleResult {
 		r := load.Rel(n.Obj().Pkg())
 		return strings.HasPrefix(r, "pkg/visitor")
 	}
+	type loop struct{ body map[*ssa.BasicBlock]bool }
+	loopsOf := map[*ssa.Function][]loop{}
 	for _, fn := range w.InPkgs(rel) {
-		name := w.Name(fn)
-		// natural loops
-		type loop struct{ body map[*ssa.BasicBlock]bool }
 		var loops []loop
 		for _, b := range fn.Blocks {
 			for _, s := range b.Succs {
@@ -52,23 +51,74 @@ func VisitorPerItem(w *World, rel string) *report.RuleResult {
 				}
 			}
 		}
-		if len(loops) == 0 {
-			continue
+		loopsOf[fn] = loops
+	}
+	outermost := func(fn *ssa.Function, b *ssa.BasicBlock) *loop {
+		var best *loop
+		ls := loopsOf[fn]
+		for i := range ls {
+			if ls[i].body[b] && (best == nil || len(ls[i].body) > len(best.body)) {
+				best = &ls[i] // the outermost loop: the per-file loop of a worker
+			}
 		}
-		inLoop := func(b *ssa.BasicBlock) *loop {
-			var best *loop
-			for i := range loops {
-				if loops[i].body[b] && (best == nil || len(loops[i].body) > len(best.body)) {
-					best = &loops[i] // the outermost loop: the per-file loop of a worker
+		return best
+	}
+	// functions of the package that run once per item: called (statically) from inside a loop of the package, or
+	// from such a function - the body of a worker's loop moved into a helper
+	inPkg := map[*ssa.Function]bool{}
+	for _, fn := range w.InPkgs(rel) {
+		inPkg[fn] = true
+	}
+	type site struct {
+		caller *ssa.Function
+		call   ssa.CallInstruction
+	}
+	perItem := map[*ssa.Function][]site{}
+	for changed := true; changed; {
+		changed = false
+		for _, fn := range w.InPkgs(rel) {
+			for _, b := range fn.Blocks {
+				if outermost(fn, b) == nil && perItem[fn] == nil {
+					continue
+				}
+				for _, in := range b.Instrs {
+					c, ok := in.(ssa.CallInstruction)
+					if !ok {
+						continue
+					}
+					if _, isGo := in.(*ssa.Go); isGo {
+						continue // a goroutine started per item is not the item's own work
+					}
+					callee := c.Common().StaticCallee()
+					if callee == nil || !inPkg[callee] || callee == fn {
+						continue
+					}
+					known := false
+					for _, s := range perItem[callee] {
+						if s.call == c {
+							known = true
+						}
+					}
+					if !known {
+						perItem[callee] = append(perItem[callee], site{fn, c})
+						changed = true
+					}
 				}
 			}
-			return best
 		}
+	}
+	for _, fn := range w.InPkgs(rel) {
+		name := w.Name(fn)
+		if len(loopsOf[fn]) == 0 && perItem[fn] == nil {
+			continue
+		}
+		inLoop := func(b *ssa.BasicBlock) *loop { return outermost(fn, b) }
+		whole := perItem[fn] != nil // every block of a per-item function belongs to the iteration
 		nuse := 0
 		reported := map[string]bool{}
 		for _, b := range fn.Blocks {
 			lp := inLoop(b)
-			if lp == nil {
+			if lp == nil && !whole {
 				continue
 			}
 			for _, in := range b.Instrs {
@@ -122,7 +172,38 @@ func VisitorPerItem(w *World, rel string) *report.RuleResult {
 						res.Count("uses", 1)
 						def, ok := v.(ssa.Instruction)
 						key := fmt.Sprintf("%s/%s", name, Expr(v))
-						if ok && def.Block() != nil && lp.body[def.Block()] {
+						if par, isPar := v.(*ssa.Parameter); isPar && whole && lp == nil {
+							// handed in by the loop that calls this function: created in that loop's iteration?
+							idx := -1
+							for i, q := range fn.Params {
+								if q == par {
+									idx = i
+								}
+							}
+							fresh := idx >= 0
+							for _, st := range perItem[fn] {
+								args := st.call.Common().Args
+								if idx < 0 || idx >= len(args) {
+									fresh = false
+									continue
+								}
+								ad, isInstr := args[idx].(ssa.Instruction)
+								clp := outermost(st.caller, st.call.Block())
+								if !(isInstr && ad.Block() != nil && (clp != nil && clp.body[ad.Block()] || clp == nil && perItem[st.caller] != nil)) {
+									fresh = false
+								}
+							}
+							if !reported[key] {
+								reported[key] = true
+								if fresh {
+									res.OK(key, w.InstrPos(in), name, "created by the caller in the iteration that uses it")
+								} else {
+									res.Bad(key, w.InstrPos(in), name, fmt.Sprintf("%s is handed to the per-file helper by a caller that created it outside its loop: its state is carried from one file to the next", Expr(v)))
+								}
+							}
+							return
+						}
+						if ok && def.Block() != nil && (whole && lp == nil || lp != nil && lp.body[def.Block()]) {
 							if !reported[key] {
 								res.OK(key, w.InstrPos(in), name, "created in the iteration that uses it")
 								reported[key] = true
